@@ -8,6 +8,7 @@ import (
 	"os"
 	"path/filepath"
 	"regexp"
+	"sort"
 	"strconv"
 	"strings"
 
@@ -113,7 +114,91 @@ func runGen(repo, outDir string) error {
 	}
 	sb.WriteString("].\n")
 	must(os.WriteFile(filepath.Join(outDir, "VisitOrder.v"), []byte(sb.String()), 0o644))
+
+	// ScopeOrder.v: publishing of the security scopes, entry into the per-operation middleware chain and call of the user's
+	// handler in EXECUTION order, for the wrappers that run the middlewares themselves
+	so, err := scanScopeOrder(repo)
+	if err != nil {
+		return err
+	}
+	sb.Reset()
+	sb.WriteString("(* GENERATED from the wrapper templates of /repo (chi, gorilla, std-http, gin) on every run. Do not edit. *)\n")
+	sb.WriteString("From Coq Require Import List String.\nFrom V Require Import Model.Security.\nImport ListNotations.\nLocal Open Scope string_scope.\n\n")
+	sb.WriteString("(* template, [publish scopes | enter the middleware chain | call the handler] in the order in which they are executed *)\n")
+	sb.WriteString("Definition scope_order : list (string * list wtok) := [\n")
+	for i, v := range so {
+		sep := ";"
+		if i == len(so)-1 {
+			sep = ""
+		}
+		fmt.Fprintf(&sb, "  (%s, [%s])%s\n", coqLitStr(v.Name), strings.Join(v.Tokens, "; "), sep)
+	}
+	sb.WriteString("].\n")
+	must(os.WriteFile(filepath.Join(outDir, "ScopeOrder.v"), []byte(sb.String()), 0o644))
 	return nil
+}
+
+// scanScopeOrder reads, from the body of the wrapper method of each template, where the scopes are published relative to
+// the middleware chain. net/http flavours: the handler call sits in a closure (http.HandlerFunc(func...) that the
+// middlewares wrap and handler.ServeHTTP enters: statements before the closure run first, then the chain, then the
+// closure's body. gin: the text order is the execution order.
+func scanScopeOrder(repo string) ([]visitSeq, error) {
+	var out []visitSeq
+	for _, rel := range []string{"chi/chi-middleware.tmpl", "gorilla/gorilla-middleware.tmpl", "stdhttp/std-http-middleware.tmpl", "gin/gin-wrappers.tmpl"} {
+		b, err := os.ReadFile(filepath.Join(repo, "pkg/codegen/templates", rel))
+		if err != nil {
+			return nil, err
+		}
+		text := string(b)
+		start := strings.Index(text, "func (siw *ServerInterfaceWrapper)")
+		if start < 0 {
+			out = append(out, visitSeq{rel, nil})
+			continue
+		}
+		body := text[start:]
+		type ev struct {
+			pos int
+			tok string
+		}
+		var evs []ev
+		for _, m := range regexp.MustCompile(`Scopes, \{\{toStringArray \.Scopes\}\}\)`).FindAllStringIndex(body, -1) {
+			evs = append(evs, ev{m[0], "KPublish"})
+		}
+		if i := strings.Index(body, "siw.Handler.{{"); i >= 0 {
+			evs = append(evs, ev{i, "KHandler"})
+		}
+		var toks []string
+		if strings.HasPrefix(rel, "gin/") {
+			if i := strings.Index(body, "range siw.HandlerMiddlewares"); i >= 0 {
+				evs = append(evs, ev{i, "KChain"})
+			}
+			sort.Slice(evs, func(i, j int) bool { return evs[i].pos < evs[j].pos })
+			for _, e := range evs {
+				toks = append(toks, e.tok)
+			}
+		} else {
+			closure := strings.Index(body, "http.HandlerFunc(func(")
+			serve := strings.Index(body, "handler.ServeHTTP(")
+			if closure < 0 || serve < 0 {
+				out = append(out, visitSeq{rel, nil})
+				continue
+			}
+			sort.Slice(evs, func(i, j int) bool { return evs[i].pos < evs[j].pos })
+			for _, e := range evs { // statements of the wrapper before the closure is made
+				if e.pos < closure {
+					toks = append(toks, e.tok)
+				}
+			}
+			toks = append(toks, "KChain")
+			for _, e := range evs { // the closure's body, run by the innermost middleware
+				if e.pos > closure && e.pos < serve {
+					toks = append(toks, e.tok)
+				}
+			}
+		}
+		out = append(out, visitSeq{rel, toks})
+	}
+	return out, nil
 }
 
 type visitSeq struct {
